@@ -43,6 +43,8 @@ def gen_cases(seed, tier):
         g = float(rng.choice([0.3, 0.6, 0.9, 0.97]))
         eps = float(spec["scale"] * 10.0 ** rng.uniform(-6, 0))
         budget = [1, 3, 100, AMPLE, AMPLE][int(rng.integers(0, 5))]
+        if budget <= 100 and rng.random() < 0.3:
+            g = float(rng.choice([0.99999, 1 - 1e-7, 0.02]))    # thresholds eps*(1-g)/g far from eps
         cases.append(dict(kind="gen", spec=spec, gamma=g, epsilon=eps, test=str(rng.choice(["span", "max_diff"])),
                           max_eval_iter=budget, reset=bool(rng.integers(0, 2)),
                           max_batch_size=common.batch_choices(rng, spec["S"]), devices=int(rng.choice(devs)),
